@@ -328,8 +328,14 @@ def crash_point_job(arg):
             shutil.rmtree(work, ignore_errors=True)
             return ("MACHINERY", f"crash point {fault}: the kill was not delivered at the recorded call (saw {hit[:1]})", None)
         info = f"first run killed before {sc}#{k} on {relpath}"
-    r2 = invoke(ws, work, "", package_dir_arg=ws["package_dir"])
-    v = judge_clean(ws, work, "", False, ws["package_dir"], r2, f"{ws['name']} second run after {info}")
+    cwd_rel = ""
+    if pre_seed and pre_seed.endswith("@composite"):
+        # invoked from the first composite's own directory: its dependencies are packaged too,
+        # whatever their output directories hold already
+        cwd_rel = [bp for bp in ws["buildpacks"] if bp["kind"] == "composite"][0]["dir"]
+    pk = ws["package_dir"] and os.path.join(work, ws["package_dir"])
+    r2 = invoke(ws, work, cwd_rel, package_dir_arg=pk if cwd_rel else ws["package_dir"])
+    v = judge_clean(ws, work, cwd_rel, False, pk if cwd_rel else ws["package_dir"], r2, f"{ws['name']} second run{' from ' + cwd_rel if cwd_rel else ''} after {info}")
     left = None
     shutil.rmtree(work, ignore_errors=True)
     if os.path.exists(work + ".log"):
@@ -365,6 +371,15 @@ def seed_foreign(ws, root, pkgdir, kind):
             for p in ("leftover.txt", "bin/build", ".libcnb-cargo/additional-bin/helper-from-earlier"):
                 open(os.path.join(bd, p), "w").write("stale")
             os.symlink("build", os.path.join(bd, "bin", "detect"))
+    elif kind == "stale-descriptors-in-every-output-dir@composite":
+        for bp in ws["buildpacks"]:
+            if bp["kind"] == "other":
+                continue
+            bd = os.path.join(base, bp["id"].replace("/", "_"))
+            os.makedirs(bd, exist_ok=True)
+            open(os.path.join(bd, "buildpack.toml"), "w").write('api = "0.9"\n\n[buildpack]\nid = "stale/one"\nversion = "0.0.0"\n')
+            open(os.path.join(bd, "package.toml"), "w").write('[buildpack]\nuri = "."\n')
+            open(os.path.join(bd, "leftover.txt"), "w").write("stale")
     elif kind == "old-composite-package-toml":
         comp = [bp for bp in ws["buildpacks"] if bp["kind"] == "composite"]
         if comp:
@@ -374,7 +389,7 @@ def seed_foreign(ws, root, pkgdir, kind):
             open(os.path.join(cd, "buildpack.toml"), "w").write("stale = true\n" * 30)
 
 
-SEEDS = ["foreign-files-in-every-output-dir", "extra-files", "dir-where-detect-goes", "file-where-bin-goes", "dangling-detect", "old-composite-package-toml"]
+SEEDS = ["stale-descriptors-in-every-output-dir@composite", "foreign-files-in-every-output-dir", "extra-files", "dir-where-detect-goes", "file-where-bin-goes", "dangling-detect", "old-composite-package-toml"]
 
 
 def family(thorough=True):
@@ -545,7 +560,7 @@ def run(ctx):
     res.cov("workspaces", [w["name"] for w in workspaces])
     res.cov("distinct_outcomes", sorted(outcomes))
     res.cov("determinism_replays", len(crash_ws))
-    res.cov("rule", "generated workspaces of trivial crates (libcnb.rs buildpacks with 1-3 binary targets incl. an ambiguous one, composites with libcnb:/relative/docker/urn dependencies forming a DAG, a non-libcnb buildpack directory, an ignore file for the output directory) packaged by the real cargo-libcnb from the root and from every buildpack directory, dev/release, default/custom/outside package dir, each also re-run over its own output; plus a composite-only family: every labelled DAG (25) on three composite buildpacks x every assignment of three ids (two id sets, one with a multi-slash id whose prefix is another id) (alphabetical id order vs dependency order in every combination; one buildpack in a directory named `target`), from the root (with and without --no-cross-compile-assistance) and from every buildpack directory; one crate carries a build script, an integration test and an example; then for the crash workspaces every mutating syscall of the packager under the package directory is a crash point (SIGKILL before the call) followed by a complete second run, plus 5 kinds of foreign pre-seeded content; distinct_nontrivial = crash points + seeds + workspaces")
+    res.cov("rule", "generated workspaces of trivial crates (libcnb.rs buildpacks with 1-3 binary targets incl. an ambiguous one, composites with libcnb:/relative/docker/urn dependencies forming a DAG, a non-libcnb buildpack directory, an ignore file for the output directory) packaged by the real cargo-libcnb from the root and from every buildpack directory, dev/release, default/custom/outside package dir, each also re-run over its own output; plus a composite-only family: every labelled DAG (25) on three composite buildpacks x every assignment of three ids (two id sets, one with a multi-slash id whose prefix is another id) (alphabetical id order vs dependency order in every combination; one buildpack in a directory named `target`), from the root (with and without --no-cross-compile-assistance) and from every buildpack directory; one crate carries a build script, an integration test and an example; then for the crash workspaces every mutating syscall of the packager under the package directory is a crash point (SIGKILL before the call) followed by a complete second run, plus 6 kinds of foreign pre-seeded content (one of them, stale descriptor files in every output directory, followed by a run from a composite's own directory); distinct_nontrivial = crash points + seeds + workspaces")
     res.cov("bound", {"first_run_crashes": 1, "target": TRIPLE})
     res.cov("exhaustive", True)
     res.sample({"workspace": W1})
